@@ -418,7 +418,12 @@ class Rewriter:
 
             else:
                 op = getattr(math, opname)
-            return like.context.constant(op(*args), like)
+            try:
+                value = op(*args)
+            except (ValueError, OverflowError, ZeroDivisionError):
+                # math raises where IEEE arithmetic returns nan / inf: leave the expression unfolded
+                return
+            return like.context.constant(value, like)
 
     def absolute(self, expr):
         (x,) = expr.operands
